@@ -588,7 +588,7 @@ def eq_case():
     return st.fixed_dictionaries(
         {
             "root": rich_tree(2, tfy=False, plain_only=True),
-            "edit": st.sampled_from(EDITS),
+            "edit": st.sampled_from(EDITS + ["dep-field", "dep-field", "dep-field"]),
             "n": st.integers(0, 50),
             "as_list": st.booleans(),
         }
